@@ -1,2 +1,13 @@
+-- Root of the `FlatccModel` library: every model, proof and property file.
+import FlatccModel.Generated.Consts
+import FlatccModel.Util
 import FlatccModel.Num
 import FlatccModel.NumProofs
+import FlatccModel.Sort
+import FlatccModel.Find
+import FlatccModel.ScanSwap
+import FlatccModel.RefmapCore
+import FlatccModel.Refmap
+import FlatccModel.Props.C16
+import FlatccModel.Props.C18
+import FlatccModel.Props.C19
